@@ -27,6 +27,9 @@ pub enum FailMode {
     Garbage,
     /// The lane drops both of its channels.
     DropIo,
+    /// The lane writes the first part of a well-formed response and then drops its channels: the runtime sees the
+    /// end of the stream in the middle of a frame, which is a failure of the lane (not a lane that has merely ended).
+    TornFrame,
 }
 
 #[derive(Debug, Clone, Serialize, Deserialize, PartialEq, Eq)]
@@ -369,6 +372,13 @@ async fn fake_task(
                             junk.extend_from_slice(&[0xEEu8; 17]);
                             let _ = raw.write_all(&junk).await;
                             std::mem::forget(raw);
+                        } else if matches!(p.mode, FailMode::TornFrame) {
+                            let mut raw = w.into_inner();
+                            let mut b = BytesMut::new();
+                            let r: MapLaneResponse<i32, i32> = LaneResponse::StandardEvent(MapOperation::Update { key: 7, value: 123_456_789 });
+                            let _ = tokio_util::codec::Encoder::encode(&mut MapLaneResponseEncoder::default(), r, &mut b);
+                            let keep = b.len().saturating_sub(3).max(1);
+                            let _ = raw.write_all(&b[..keep]).await;
                         }
                     }
                     continue;
@@ -382,6 +392,16 @@ async fn fake_task(
                             let _ = raw.write_all(&junk).await;
                             // Keep the writer open so that only the garbage can be the cause.
                             std::mem::forget(raw);
+                        }
+                    }
+                    FailMode::TornFrame => {
+                        if let Some(w) = writers.remove(lane) {
+                            let mut raw = w.into_inner();
+                            let mut b = BytesMut::new();
+                            let _ = tokio_util::codec::Encoder::encode(&mut ValueLaneResponseEncoder::default(), LaneResponse::StandardEvent(123_456_789i32), &mut b);
+                            let keep = b.len().saturating_sub(3).max(1);
+                            let _ = raw.write_all(&b[..keep]).await;
+                            // The writer is dropped here: end of stream inside the frame.
                         }
                     }
                     FailMode::DropIo => {
